@@ -135,7 +135,9 @@ def run(ctx) -> Result:
             rng = Rng(seed, f"c09/{kind}/{i}")
             sc = make_scenario(rng, deep)
             sc["broker"], sc["consumer_latency_us"] = kind, 0
-            r = vtime.run(lambda loop, s=sc: scenario(s), budget=300_000_000)
+            # the Redis consumer polls: an empty priority costs it POLLING_WAIT (0.1 s) before it looks at the next one
+            sc["horizon_s"] += 0.5 * len(sc["jobs"])
+            r = vtime.run(lambda loop, s=sc: scenario(s), budget=600_000_000)
             check(r, model, res, f"run-{kind}-{seed}-{i}")
             res.dist[f"broker:{kind}"] += 1
     return res
